@@ -58,7 +58,7 @@ def weaken(a, cond_unspec):
 
 CONSTRAINT_FAMILY = {
     "TaskStartAt": "TC", "TaskStartAfter": "TC", "TaskEndAt": "TC", "TaskEndBefore": "TC",
-    "TaskPrecedence": "TC", "TasksStartSynced": "TC", "TasksEndSynced": "TC", "TasksDontOverlap": "TC",
+    "TaskPrecedence": "TC", "GroupPrecedence": "TC", "TasksStartSynced": "TC", "TasksEndSynced": "TC", "TasksDontOverlap": "TC",
     "TasksContiguous": "TC", "UnorderedTaskGroup": "TC", "OrderedTaskGroup": "TC",
     "ScheduleNTasksInTimeIntervals": "TC",
     "OptionalTaskForceSchedule": "OPT", "OptionalTaskConditionSchedule": "OPT",
@@ -110,6 +110,92 @@ def cost_integral(c, lo, hi):
     return tot
 
 
+def _lane_witnesses(spec, v, sched):
+    """Work amounts of tasks that occupy a cumulative worker.  resource.py documents that the productivity p of a
+    cumulative worker of size n is distributed over its n elementary workers ("lanes") as lane_shares(p, n), that a task
+    occupies at least one lane, and a lane is an ordinary worker (one task at a time).  Returns
+      T  if some choice of exactly ONE lane per task (the occupation every other reference rule assumes under its strict
+         reading) keeps the lanes exclusive and reaches every work amount;
+      F  if no choice of non-empty lane sets, with only positive-length overlaps counted as conflicts, reaches them;
+      U  otherwise."""
+    occ = []  # (task, cumulative name, start, end)
+    base = {}  # task -> work done by ordinary workers
+    want = {}
+    for t in spec.get("tasks", []):
+        n = t["name"]
+        wa = t.get("work_amount") or 0
+        if wa > 0 and v.sch(n):
+            want[n] = wa
+            base[n] = 0
+    for ai, a in enumerate(spec.get("assign", [])):
+        n = a["task"]
+        if not v.sch(n):
+            continue
+        rec = sched["assign"][ai]
+        s, e = v.start(n), v.end(n)
+        if a["res"] in v.cspec:
+            occ.append((n, a["res"], s, e))
+        elif a["res"] in v.wspec:
+            if n in want:
+                b = rec["busy"].get(a["res"]) or [s + (a.get("delay_in") or 0), e - (a.get("early_out") or 0)]
+                pr = v.wspec[a["res"]].get("productivity")
+                base[n] += (1 if pr is None else pr) * (b[1] - b[0])
+        else:
+            for w, c in (rec.get("chosen") or {}).items():
+                if not c:
+                    continue
+                if w in v.cspec:
+                    occ.append((n, w, s, e))
+                elif n in want:
+                    pr = v.wspec[w].get("productivity") if w in v.wspec else None
+                    base[n] += (1 if pr is None else pr) * (e - s)
+    if not occ or any(e < s for _, _, s, e in occ):
+        return None
+    shares = {}
+    for cn, cs in v.cspec.items():
+        pr = cs.get("productivity")
+        shares[cn] = lane_shares(1 if pr is None else pr, cs["size"])
+
+    def conflict(i, j, strict):
+        (_, _, s0, e0), (_, _, s1, e1) = occ[i], occ[j]
+        if e0 > s0 and e1 > s1:
+            return max(s0, s1) < min(e0, e1)
+        if not strict or (e0 == s0 and e1 == s1):
+            return False
+        z, (a, b) = (s0, (s1, e1)) if e0 == s0 else (s1, (s0, e0))
+        return a < z < b
+
+    def search(strict, one_lane):
+        chosen = []
+
+        def rec_(i):
+            if i == len(occ):
+                got = dict(base)
+                for (n, cn, s, e), ls in zip(occ, chosen):
+                    if n in got:
+                        got[n] += sum(shares[cn][k] for k in ls) * (e - s)
+                return all(got[n] >= want[n] for n in want)
+            n, cn, s, e = occ[i]
+            size = len(shares[cn])
+            subsets = [(k,) for k in range(size)] if one_lane else [ls for r in range(1, size + 1) for ls in itertools.combinations(range(size), r)]
+            for ls in subsets:
+                if any(occ[j][1] == cn and set(ls) & set(chosen[j]) and conflict(i, j, strict) for j in range(i)):
+                    continue
+                chosen.append(ls)
+                if rec_(i + 1):
+                    return True
+                chosen.pop()
+            return False
+
+        return rec_(0)
+
+    if search(True, True):
+        return T
+    if not search(False, False):
+        return F
+    return U
+
+
 class Verdict:
     def __init__(self):
         self.results = []  # (family, rule, element, tvset, detail)
@@ -152,6 +238,7 @@ class View:
         self.bspec = {b["name"]: b for b in spec.get("buffers", [])}
         self.ispec = {i["id"]: i for i in spec.get("indicators", [])}
         self._eff = None
+        self.applied_env = None  # {optional constraint name: applied?} while a nested force-apply rule is evaluated
 
     def sch(self, name):
         return bool(self.s["tasks"][name]["scheduled"])
@@ -351,6 +438,52 @@ def h_precedence(c, v, operand):
     if not (v.sch(a) and v.sch(b)):
         return _vacuous(operand)
     return tv(_cmp_kind(c["kind"], v.end(a) + c["offset"], v.start(b)))
+
+
+_INF = 10 ** 9
+
+
+def _group_window(gc, v):
+    """ranges ((lo, hi) of the window start, (lo, hi) of the window end) that the group's own rule leaves to the two
+    window unknowns of a task group: the window contains every scheduled member; it lies inside the fixed interval, or
+    is not longer than the given length."""
+    names = v.scheduled_of(gc["tasks"])
+    s_hi = min((v.start(n) for n in names), default=_INF)  # window start <= every member start
+    e_lo = max((v.end(n) for n in names), default=-_INF)  # window end >= every member end
+    s_lo, e_hi = -_INF, _INF
+    if gc.get("interval") is not None:
+        s_lo, e_hi = gc["interval"][0], gc["interval"][1]
+    elif gc.get("length") is not None and names:
+        # end <= start + length with start <= s_hi, end >= e_lo
+        e_hi = s_hi + gc["length"]
+        s_lo = e_lo - gc["length"]
+    return (s_lo, s_hi), (e_lo, e_hi)
+
+
+def h_group_precedence(c, v, operand):
+    """TaskPrecedence over task groups: the relation holds between the end of the `before` window (resp. task) and the
+    start of the `after` window (resp. task), for some admissible position of the window(s).  A task operand that is
+    not scheduled makes it vacuous."""
+    if c.get("gbefore"):
+        _, (a_lo, a_hi) = _group_window(find_constraint(v.spec, c["gbefore"]), v)
+    else:
+        if not v.sch(c["before"]):
+            return _vacuous(operand)
+        a_lo = a_hi = v.end(c["before"])
+    if c.get("gafter"):
+        (b_lo, b_hi), _ = _group_window(find_constraint(v.spec, c["gafter"]), v)
+    else:
+        if not v.sch(c["after"]):
+            return _vacuous(operand)
+        b_lo = b_hi = v.start(c["after"])
+    if a_lo > a_hi or b_lo > b_hi:
+        return F  # no admissible window at all (the group itself is violated)
+    off = c["offset"]
+    if c["kind"] == "lax":
+        return tv(a_lo + off <= b_hi)
+    if c["kind"] == "strict":
+        return tv(a_lo + off < b_hi)
+    return tv(a_lo + off <= b_hi and b_lo <= a_hi + off)
 
 
 def h_pair(c, v, operand):
@@ -777,9 +910,56 @@ def h_ite(c, v, operand):
     )
 
 
+def h_force_apply(c, v, operand):
+    """a force-apply rule used as an operand: the count of applied flags (the flags of the model, or those of the
+    assignment under examination in candidate mode)"""
+    env = v.applied_env
+    if env is None or any(env.get(n) is None for n in c["cs"]):
+        return U
+    return tv(_count(c["kind"], sum(1 for n in c["cs"] if env[n]), c["n"]))
+
+
+def has_nested_force_apply(c, top=True):
+    if not isinstance(c, dict) or "op" in c or "ref" in c:
+        return False
+    if c["type"] == "ForceApplyNOptionalConstraints":
+        return not top
+    for k in ("c", "c1", "c2"):
+        if has_nested_force_apply(c.get(k), False):
+            return True
+    return any(has_nested_force_apply(x, False) for k in ("cs", "then", "else") for x in (c.get(k) or []))
+
+
+def force_apply_joint(spec, v):
+    """candidate mode, some force-apply rule is an operand: the applied flags are unknowns shared by every rule.  T if some
+    set of certainly-holding optional constraints, taken as the applied ones, makes every formula containing a rule and
+    every top-level rule true; F if no set of possibly-holding ones does; U otherwise."""
+    opt = [c for c in spec["constraints"] if c.get("optional") and c.get("name")]
+    deps = [c for c in spec["constraints"] if not c.get("optional") and (c["type"] == "ForceApplyNOptionalConstraints" or has_nested_force_apply(c))]
+    hs = {c["name"]: holds(c, v) for c in opt}
+    sure = [n for n, x in hs.items() if x == T]
+    maybe = [n for n, x in hs.items() if True in x]
+
+    def some(names, need_T):
+        for r in range(len(names) + 1):
+            for a in itertools.combinations(names, r):
+                v.applied_env = {c["name"]: c["name"] in a for c in opt}
+                vals = [(h_force_apply(c, v, False) if c["type"] == "ForceApplyNOptionalConstraints" else holds(c, v)) for c in deps]
+                if all((x == T) if need_T else (True in x) for x in vals):
+                    return True
+        return False
+
+    try:
+        if some(sure, True):
+            return T
+        return U if some(maybe, False) else F
+    finally:
+        v.applied_env = None
+
+
 _HOLDS = {
     "TaskStartAt": h_single, "TaskEndAt": h_single, "TaskStartAfter": h_single, "TaskEndBefore": h_single,
-    "TaskPrecedence": h_precedence,
+    "TaskPrecedence": h_precedence, "GroupPrecedence": h_group_precedence,
     "TasksStartSynced": h_pair, "TasksEndSynced": h_pair, "TasksDontOverlap": h_pair,
     "TasksContiguous": h_contiguous,
     "UnorderedTaskGroup": h_group, "OrderedTaskGroup": h_group,
@@ -791,7 +971,7 @@ _HOLDS = {
     "ResourceInterrupted": h_interrupted, "ResourcePeriodicallyInterrupted": h_periodic_interrupted,
     "SameWorkers": h_same_distinct, "DistinctWorkers": h_same_distinct,
     "ConstraintFromExpression": h_expr, "Not": h_not, "Or": h_or, "And": h_and, "Xor": h_xor,
-    "Implies": h_implies, "IfThenElse": h_ite,
+    "Implies": h_implies, "IfThenElse": h_ite, "ForceApplyNOptionalConstraints": h_force_apply,
 }
 
 
@@ -1100,6 +1280,7 @@ def judge(spec, sched, reported_buffers=None, reported_indicators=None, from_mod
             else:
                 vd.add("W", "cumulative_capacity", cn, T)
 
+    lanes_verdict = None
     for t in spec.get("tasks", []):
         n = t["name"]
         wa = t.get("work_amount") or 0
@@ -1145,10 +1326,23 @@ def judge(spec, sched, reported_buffers=None, reported_indicators=None, from_mod
                         lo += p * (e - s)
                         hi += p * (e - s)
         if has:
-            vd.add("W", "work_amount", n, T if lo >= wa else (U if hi >= wa else F), (lo, hi, wa))
+            val = T if lo >= wa else (U if hi >= wa else F)
+            if val == U and lanes_verdict is None:
+                lanes_verdict = _lane_witnesses(spec, v, sched)
+            if val == U and lanes_verdict is not None:
+                # the open case is which elementary workers ("lanes") of a cumulative worker the tasks occupy: decided by
+                # search over the lane choices of all tasks together
+                val = lanes_verdict
+            vd.add("W", "work_amount", n, val, (lo, hi, wa))
 
     # ---- constraints ------------------------------------------------------------------------
     applied = sched.get("applied") or {}
+    nested_fa = any(has_nested_force_apply(c) for c in spec.get("constraints", []))
+    if nested_fa:
+        if all(applied.get(c.get("name")) is not None for c in spec["constraints"] if c.get("optional")):
+            v.applied_env = dict(applied)  # the flags of the model
+        elif from_model is False or not applied:
+            vd.add("FOL", "force_apply_joint", None, force_apply_joint(spec, v))
     for c in spec.get("constraints", []):
         ty = c["type"]
         fam = CONSTRAINT_FAMILY[ty]
@@ -1156,6 +1350,8 @@ def judge(spec, sched, reported_buffers=None, reported_indicators=None, from_mod
             continue
         if ty == "ForceApplyNOptionalConstraints":
             continue
+        if nested_fa and v.applied_env is None and has_nested_force_apply(c):
+            continue  # judged jointly above
         val = holds(c, v)
         if c.get("optional"):
             ap = applied.get(c.get("name"))
